@@ -101,7 +101,7 @@ def step (P : Prog) (req : List Sx) : Prog × String :=
   | [.list [.atom "transfer", op, pc, n, caps, h, l]] =>
     match op.asAtom.bind parseInstr, pc.asNat, n.asNat, caps.asNat, h.asNat, l.asNat with
     | some i, some pc, some n, some caps, some h, some l =>
-      match transfer P n caps pc ⟨h, l⟩ i with
+      match transfer P n caps pc ⟨h, l, .none⟩ i with
       | .ok succs => (P, "ok " ++ " ".intercalate (succs.map (fun s => s!"{s.1}:{s.2.height}:{s.2.locals}")))
       | .error r => (P, s!"reject {r}")
     | _, _, _, _, _, _ => (P, "bad-request")
